@@ -779,7 +779,6 @@ func foldUn(op string, x constant.Value) (v constant.Value, ok bool) {
 	return nil, false
 }
 
-
 // cellStableForClosures: what a closure reads from the captured cell when it runs is what the cell held when the
 // closure was made — true when no store to the cell sits in a loop that the cell's own allocation is outside of (a
 // variable declared before a loop and reassigned in every round has moved on by the time a closure made in an earlier
